@@ -24,7 +24,7 @@ META = {
 LEVEL = META['level']
 RULE = ('a case = one request frame of a recorded session paired with its reply; distinct by (session script, position); non-trivial = the session had depth >= 2 or mixed failing and succeeding requests')
 ASSUMPTIONS = ['after a reply with non-zero encapsulation status, or Unregister, nothing further is owed on that session']
-REQUIRED = ['kind:connection-manager', 'session:half-closed-after-burst', 'handle:other-than-registered', 'sessions', 'requests', 'depth:1', 'depth:2', 'depth:8', 'depth:64', 'depth:400', 'kind:register', 'kind:list_services', 'kind:list_identity', 'kind:list_interfaces',
+REQUIRED = ['session:requests-behind-the-refused-one', 'kind:connection-manager', 'session:half-closed-after-burst', 'handle:other-than-registered', 'sessions', 'requests', 'depth:1', 'depth:2', 'depth:8', 'depth:64', 'depth:400', 'kind:register', 'kind:list_services', 'kind:list_identity', 'kind:list_interfaces',
             'kind:legacy', 'kind:read', 'kind:write', 'kind:cip-failing', 'kind:bundle', 'kind:attribute', 'end:unregister', 'end:unsupported-service', 'end:unroutable',
             'context:all-zero', 'context:embedded-nul', 'monitor:paired', 'server-blocked-in-send']
 TIMEOUT = {'quick': 300, 'thorough': 2400}
@@ -124,6 +124,12 @@ def gen_session(rng, depth_target, heavy=False):
         req = {'path': {'segment': [{'symbolic': 'NoSuchTag'}] if rng.random() < 0.5 else [{'class': 0x77}, {'instance': 9}, {'attribute': 1}]}, 'read_tag': {'elements': 1}}
         cip = rc.enc_request(req)
         steps.append(('end:unroutable', lambda s, c, cip=cip: rc.rr_frame(rc.enc_unconnected_send(cip), s, c), {'command': 0x6F, 'enip_error': True}))
+    if end in ('unroutable', 'unsupported-service') and (gen_session.counter // 5) % 2 == 0:
+        # the refused request is not the last one of the burst: more requests are already in flight behind it.  The refusal ends the
+        # session, so nothing is owed for those -- but every request in front of it, and the refused one itself, still is
+        for _ in range(rng.choice([1, 2, 5])):
+            cip = rc.enc_request({'path': {'segment': [{'symbolic': 'A'}]}, 'read_tag': {'elements': 1}})
+            steps.append(('behind-the-refused-one', lambda s, c, cip=cip: rc.rr_frame(rc.enc_unconnected_send(cip), s, c), {'command': 0x6F, 'optional': True}))
     return steps
 
 
@@ -219,16 +225,17 @@ def run_session(ctx, sim, rng, depth):
             ctx.count('session:half-closed-after-burst')
         # now read everything
         got = []
-        owed = sum(1 for _, _, _, e in sent if not e.get('no_reply'))
+        owed = sum(1 for _, _, _, e in sent if not e.get('no_reply') and not e.get('optional'))
+        ends = any(e.get('no_reply') or e.get('enip_error') for _, _, _, e in sent)       # the server ends such a session itself
         sock.settimeout(15)
         closed = False
-        while len(got) < owed + 1:
+        while ends or len(got) < owed + 1:
             frames, rest = rc.split_frames(buf)
             if frames:
                 for f in frames:
                     got.append(f)
                 buf = rest
-                if len(got) >= owed and not sent[-1][3].get('no_reply') and not sent[-1][3].get('enip_error'):
+                if len(got) >= owed and not ends:
                     break
                 continue
             try:
@@ -253,6 +260,10 @@ def run_session(ctx, sim, rng, depth):
             return
         gi = 0
         for k, (kind, frame, c, expect) in enumerate(sent):
+            if expect.get('optional'):
+                ctx.count('session:requests-behind-the-refused-one')
+                gi = len(got)           # whatever came for these is not judged
+                break
             ctx.count('requests')
             ctx.count('kind:' + kind if not kind.startswith('end:') else kind)
             if expect.get('no_reply'):
